@@ -255,6 +255,9 @@ class Server:
                                 resp["final"] = True
                                 send(server, resp)
                                 raise
+                    if command == "stop" and "error" in resp:
+                        # A stop request that was rejected does not stop the daemon.
+                        command = None
                     resp["final"] = True
                     try:
                         resp.update(self._response_metadata())
